@@ -190,12 +190,15 @@ _RE_DONE = re.compile(r'<<\s*"DONE",\s*(\d+)\s*>>')
 
 
 def validate_traces(module, traces, props, constants=None, jobs=None, per_slice=400,
-                    timeout=1800):
+                    timeout=1800, multi=False):
     """validate traces (list of JSON-able dicts) against specs/<module>.tla.
 
     The trace module is total: for every trace it either consumes all events or stops at the
     first event with a non-empty set of failed clauses and prints <<"REJECT", tid, index, {clauses}>>.
     Returns (verdicts, stats): verdicts[i] = None if accepted, else (event_index(1-based), [clauses]).
+    multi=True is for trace modules whose events are judged independently (no state carried from one
+    event to the next): the module does not stop at a rejected event, it prints one REJECT line per
+    failing event and consumes the whole trace; verdicts[i] is then None or a list of (index, [clauses]).
     """
     jobs = jobs or NCPU
     n = len(traces)
@@ -227,14 +230,17 @@ def validate_traces(module, traces, props, constants=None, jobs=None, per_slice=
         rej = {}
         for m in _RE_REJECT.finditer(r.out):
             clauses = [c.strip().strip('"') for c in m.group(3).split(',') if c.strip()]
-            rej[int(m.group(1))] = (int(m.group(2)), sorted(clauses))
+            if multi:
+                rej.setdefault(int(m.group(1)), []).append((int(m.group(2)), sorted(clauses)))
+            else:
+                rej[int(m.group(1))] = (int(m.group(2)), sorted(clauses))
         nev = sum(len(traces[i]['events']) for i in idx)
         # every trace contributes len+1 states when accepted; a rejected one contributes
         # (index-1)+1 accepted-prefix states + 1 reject state
         expect = 0
         for pos, i in enumerate(idx, 1):
             L = len(traces[i]['events'])
-            if pos in rej:
+            if pos in rej and not multi:
                 expect += rej[pos][0] + 1
             else:
                 expect += L + 1
